@@ -66,7 +66,7 @@ Qed.
     that was never issued for this storage; or the capacity-limit panic, which changes nothing. *)
 Lemma push_summary cfg s iss vs : Inv s -> Hist s iss -> length vs = length (cols s) ->
   match push cfg s vs with
-  | Ok s' h => Hist s' (iss ++ [h]) /\ h ∉ iss /\ len s' = S (len s) /\ (len s < cap s -> cap s' = cap s) /\
+  | Ok s' h => Hist s' (iss ++ [h]) /\ h ∉ iss /\ len s' = S (len s) /\ (len s < cap s -> cap s' = cap s) /\ cap s <= cap s' /\
                (forall e r, has_row s' e r <-> has_row s e r \/ (e = h /\ r = vs))
   | Panic p s' => s' = s /\ p = PCapOverflow /\ (N.of_nat (len s) = MAX_DATA_CAPACITY)%N
   | UB => False
@@ -74,10 +74,10 @@ Lemma push_summary cfg s iss vs : Inv s -> Hist s iss -> length vs = length (col
 Proof.
   intros HI HH Hvs. destruct (push_spec cfg s vs HI Hvs) as [Hout Hpost].
   destruct Hout as [h x Hlt Hh Hx|n h x Hfull Hn Hnc Hneq Hh Hx|Hfull Hmax].
-  - destruct (created_summary cfg s s iss vs h x HI HH Hlt eq_refl ltac:(done) Hvs Hh Hx) as (A & B & C & D). done.
+  - destruct (created_summary cfg s s iss vs h x HI HH Hlt eq_refl ltac:(done) Hvs Hh Hx) as (A & B & C & D). split_and!; try done.
   - assert (HIg : Inv (grown s n)) by (by apply grown_inv).
     destruct (created_summary cfg s (grown s n) iss vs h x HIg ltac:(apply hist_grown; [done|done|lia]) ltac:(cbn; lia) eq_refl ltac:(done) Hvs Hh Hx) as (A & B & C & D).
-    split_and!; try done. intros Hlt. lia.
+    split_and!; try done; [intros Hlt; lia|cbn; lia].
   - split_and!; [done|done|lia].
 Qed.
 
@@ -230,6 +230,7 @@ Record ARel (s : storage) (x : sarch) (iss : list handle) : Prop := {
   a_len : length (sa_live x) = len s;
   a_hist : Hist s (iss_of (aid s) iss);
   a_cap : sa_cap_exact x = true -> sa_cap x = cap s;
+  a_cap_le : sa_cap x <= cap s;
 }.
 
 Record Rel (d : wdecl) (st : rstate) (sst : sstate) : Prop := {
@@ -306,6 +307,7 @@ Definition l0_op (d : wdecl) (o : op) : bool :=
   | OProbe LWorld KEnt TAny (RIssued _) | ODestroy LWorld KEnt TAny (RIssued _) | OToDirect LWorld KEnt TAny (RIssued _) => true
   | OToDirect (LArch b) KEnt TAny (RIssued _) => b <? length (wd_archs d)
   | OWrite p _ KEnt TAny (RIssued _) _ _ => wpath_direct p
+  | OLen _ => true
   | _ => false
   end.
 
@@ -373,7 +375,7 @@ Proof.
   cbn [step] in Hinv |- *. rewrite Hcw, Had, Hs in Hinv |- *. fold vs in Hinv |- *.
   destruct (push cfg s vs) as [s' h|p s'|] eqn:Hpush; [| |done].
   - (* created *)
-    destruct Hp as (HH' & Hfresh & Hlen' & Hcapf & Hrows).
+    destruct Hp as (HH' & Hfresh & Hlen' & Hcapf & Hcapm & Hrows).
     cbn [ret] in Hinv.
     set (st' := add_issued (set_world st (upd w a s')) h) in *.
     assert (Hw' : worlds st' = [Some (upd w a s')]) by (cbn; by rewrite Hw, Hc0).
@@ -423,10 +425,11 @@ Proof.
               assert (aid s' = aid s) as -> by congruence. done.
            ++ cbn [x' sarch_add sa_cap sa_cap_exact]. rewrite negb_involutive. intros Hex. apply andb_true_iff in Hex as [Hex Hng].
               apply Nat.ltb_lt in Hng. rewrite (a_len _ _ _ HA), (a_cap _ _ _ HA Hex) in Hng. rewrite (a_cap _ _ _ HA Hex). symmetry. by apply Hcapf.
+           ++ cbn [x' sarch_add sa_cap]. pose proof (a_cap_le _ _ _ HA). lia.
         -- destruct (Harch a2 ad2 Had2) as (s2 & x2 & Hs2 & Hx2 & HA2 & (HI2 & Haid2 & _)).
            exists s2, x2. unfold upd.
            split_and!; [etrans; [apply list_lookup_insert_ne; congruence|exact Hs2]|etrans; [apply list_lookup_insert_ne; congruence|exact Hx2]|].
-           destruct HA2 as [A1 A2 A3 A4 A5 A6 A7]. constructor; try done.
+           destruct HA2 as [A1 A2 A3 A4 A5 A6 A7 A8]. constructor; try done.
            cbn [st' add_issued issued set_world]. rewrite iss_of_app, iss_of_one, decide_False, app_nil_r; [done|].
            rewrite Hhid2, Haid2. intros E. apply Hne. eapply NoDup_lookup; [exact Hnd| |].
            ++ rewrite list_lookup_fmap, Had2. done.
@@ -471,7 +474,7 @@ Proof.
   cbn [step] in Hinv |- *. rewrite Hcw, Had, Hs in Hinv |- *. fold vs in Hinv |- *.
   destruct (push_within cfg s vs) as [s' [h|]|p s'|] eqn:Hpush; [| |done|done].
   - (* created *)
-    destruct Hp as (Hlt & HH' & Hfresh & Hlen' & Hcap' & Hrows). assert (Hcapf : len s < cap s -> cap s' = cap s) by done.
+    destruct Hp as (Hlt & HH' & Hfresh & Hlen' & Hcap' & Hrows). assert (Hcapf : len s < cap s -> cap s' = cap s) by done. assert (Hcapm : cap s <= cap s') by lia.
     cbn [ret] in Hinv.
     set (st' := add_issued (set_world st (upd w a s')) h) in *.
     assert (Hw' : worlds st' = [Some (upd w a s')]) by (cbn; by rewrite Hw, Hc0).
@@ -525,10 +528,11 @@ Proof.
               assert (aid s' = aid s) as -> by congruence. done.
            ++ cbn [x' sarch_add sa_cap sa_cap_exact]. rewrite negb_involutive. intros Hex. apply andb_true_iff in Hex as [Hex Hng].
               apply Nat.ltb_lt in Hng. rewrite (a_len _ _ _ HA), (a_cap _ _ _ HA Hex) in Hng. rewrite (a_cap _ _ _ HA Hex). symmetry. by apply Hcapf.
+           ++ cbn [x' sarch_add sa_cap]. pose proof (a_cap_le _ _ _ HA). lia.
         -- destruct (Harch a2 ad2 Had2) as (s2 & x2 & Hs2 & Hx2 & HA2 & (HI2 & Haid2 & _)).
            exists s2, x2. unfold upd.
            split_and!; [etrans; [apply list_lookup_insert_ne; congruence|exact Hs2]|etrans; [apply list_lookup_insert_ne; congruence|exact Hx2]|].
-           destruct HA2 as [A1 A2 A3 A4 A5 A6 A7]. constructor; try done.
+           destruct HA2 as [A1 A2 A3 A4 A5 A6 A7 A8]. constructor; try done.
            cbn [st' add_issued issued set_world]. rewrite iss_of_app, iss_of_one, decide_False, app_nil_r; [done|].
            rewrite Hhid2, Haid2. intros E. apply Hne. eapply NoDup_lookup; [exact Hnd| |].
            ++ rewrite list_lookup_fmap, Had2. done.
@@ -658,6 +662,7 @@ Proof.
               ** destruct (decide (e ∈ handles_of (sa_live x))) as [|Hn]; [done|]. apply find_sent_none in Hn. congruence.
            ++ cbn [st' set_drop_in set_world issued]. assert (aid s' = aid s) as -> by congruence. done.
            ++ cbn [sarch_remove sa_cap sa_cap_exact]. intros Hex. rewrite (a_cap _ _ _ HA Hex). congruence.
+           ++ cbn [sarch_remove sa_cap]. pose proof (a_cap_le _ _ _ HA). lia.
         -- destruct (Harch a2 ad2 Had2) as (s2 & x2 & Hs2 & Hx2 & HA2 & _).
            exists s2, x2. unfold upd.
            split_and!; [etrans; [apply list_lookup_insert_ne; congruence|exact Hs2]|etrans; [apply list_lookup_insert_ne; congruence|exact Hx2]|done].
@@ -772,6 +777,7 @@ Proof.
               ** destruct (decide (e ∈ handles_of (sa_live x))) as [|Hn]; [done|]. apply find_sent_none in Hn. congruence.
            ++ cbn [st' set_drop_in set_world issued]. assert (aid s' = aid s) as -> by congruence. done.
            ++ cbn [sarch_remove sa_cap sa_cap_exact]. intros Hex. rewrite (a_cap _ _ _ HA Hex). congruence.
+           ++ cbn [sarch_remove sa_cap]. pose proof (a_cap_le _ _ _ HA). lia.
         -- destruct (Harch a2 ad2 Had2) as (s2 & x2 & Hs2 & Hx2 & HA2 & _).
            exists s2, x2. unfold upd.
            split_and!; [etrans; [apply list_lookup_insert_ne; congruence|exact Hs2]|etrans; [apply list_lookup_insert_ne; congruence|exact Hx2]|done].
@@ -1053,12 +1059,54 @@ Proof.
            ++ rewrite Hlive, fmap_length, Hlen'. apply (a_len _ _ _ HA).
            ++ cbn [st' set_world issued]. rewrite Haid'. eapply hist_same_bookkeeping; [apply (a_hist _ _ _ HA)|done|done|done|done].
            ++ cbn. intros Hex. rewrite (a_cap _ _ _ HA Hex). congruence.
+           ++ cbn. pose proof (a_cap_le _ _ _ HA). lia.
         -- destruct (Harch a2 ad2 Had2) as (s2 & x2 & Hs2 & Hx2 & HA2 & _).
            exists s2, x2. unfold upd.
            split_and!; [etrans; [apply list_lookup_insert_ne; congruence|exact Hs2]|etrans; [apply list_lookup_insert_ne; congruence|exact Hx2]|done].
       * apply (r_ids _ _ _ HR).
       * apply (r_drop _ _ _ HR).
       * apply (r_arch _ _ _ HR).
+Qed.
+
+(* ---------------------------------------------------------------- len / capacity *)
+
+Lemma rel_step_len cfg d qs st sst a : Rel d st sst ->
+  exists st' obs sst', step cfg d qs st (OLen a) = Some (st', obs) /\ obs <> [254%N] /\
+    spec_step cfg d qs sst (OLen a) obs = inr sst' /\ Rel d st' sst'.
+Proof.
+  intros HR. destruct (rel_cur d st sst HR) as (w & sw & Hw & Hsw & Hcw & Hcsw & HWI & Harch).
+  destruct (r_cur _ _ _ HR) as [Hc0 Hsc0].
+  destruct (wd_archs d !! a) as [ad|] eqn:Had.
+  2: { assert (Hwn : w !! a = None) by (apply lookup_ge_None; rewrite <- (Forall2_length _ _ _ HWI); by apply lookup_ge_None).
+       exists st, [8%N], sst. split_and!; [|done| |done].
+       - cbn [step]. by rewrite Hcw, Hwn.
+       - cbn [spec_step]. rewrite Hcsw. by destruct (sw !! a). }
+  destruct (Harch a ad Had) as (s & x & Hs & Hx & HA & (HI & Haid & Hcols)).
+  set (x' := SA (sa_live x) (cap s) true (sa_rem x) (sa_cre x) (sa_created x) (sa_destroyed x) (sa_synced x) (sa_evok x)).
+  exists st, [N.of_nat (len s); N.of_nat (cap s); (if len s =? 0 then 1%N else 0%N); version s; N.of_nat (len s); N.of_nat (cap s)],
+         (set_sarch sst sw a x').
+  split_and!; [|done| |].
+  - cbn [step]. by rewrite Hcw, Hs.
+  - cbn [spec_step]. rewrite Hcsw, Hx. rewrite !N.eqb_refl. cbn [andb negb].
+    rewrite (a_sync _ _ _ HA), Nat2N.id, (a_len _ _ _ HA), Nat.eqb_refl. cbn [andb negb].
+    assert ((if (N.of_nat (len s) =? 0)%N then 1%N else 0%N) = (if len s =? 0 then 1%N else 0%N)) as ->.
+    { destruct (Nat.eqb_spec (len s) 0) as [->|Hne]; [done|]. destruct (N.eqb_spec (N.of_nat (len s)) 0); [lia|done]. }
+    rewrite N.eqb_refl. cbn [negb].
+    pose proof (i_le s HI) as Hle. pose proof (a_cap_le _ _ _ HA) as Hcl.
+    assert ((N.of_nat (cap s) <? N.of_nat (len s))%N = false) as -> by (apply N.ltb_ge; lia).
+    rewrite !Nat2N.id.
+    assert ((cap s <? sa_cap x) = false) as -> by (apply Nat.ltb_ge; lia).
+    assert ((sa_cap_exact x && negb (cap s =? sa_cap x)) = false) as ->.
+    { destruct (sa_cap_exact x) eqn:Hex; [|done]. rewrite (a_cap _ _ _ HA Hex), Nat.eqb_refl. done. }
+    unfold x'. by rewrite (a_sync _ _ _ HA).
+  - destruct HR as [R1 R2 R3 R4 R5 R6 R7]. constructor; try done.
+    exists w, (<[a := x']> sw). split_and!; [done|cbn; by rewrite Hsw, Hsc0|].
+    intros a2 ad2 Had2. destruct (decide (a2 = a)) as [->|Hne].
+    + rewrite Had in Had2. injection Had2 as <-. exists s, x'.
+      split_and!; [done|apply list_lookup_insert; by eapply lookup_lt_Some|].
+      destruct HA as [A1 A2 A3 A4 A5 A6 A7 A8]. constructor; try done.
+    + destruct (Harch a2 ad2 Had2) as (s2 & x2 & Hs2 & Hx2 & HA2 & _). exists s2, x2.
+      split_and!; [done|etrans; [apply list_lookup_insert_ne; congruence|exact Hx2]|done].
 Qed.
 
 (* ---------------------------------------------------------------- the initial world and whole histories *)
@@ -1097,6 +1145,7 @@ Proof.
     + intros e r (dd & Hdd & _). lia.
     + constructor.
     + apply hist_empty; done.
+    + lia.
   - intros e He. by apply elem_of_nil in He.
 Qed.
 
@@ -1106,7 +1155,7 @@ Lemma rel_step cfg d qs st sst o : wrapping cfg = false -> wf_decl d -> NoDup (d
   exists st' obs sst', step cfg d qs st o = Some (st', obs) /\ obs <> [254%N] /\
     spec_step cfg d qs sst o obs = inr sst' /\ Rel d st' sst'.
 Proof.
-  intros Hwr Hwf Hnd HR Hl0. destruct o as [| | | |a v|a v|l k t r|l k t r|l k t r|p b k t r c v| | | | | | | | | | | | |]; try done.
+  intros Hwr Hwf Hnd HR Hl0. destruct o as [| | | |a v|a v|l k t r|l k t r|l k t r|p b k t r c v| | | | |a| | | | | | | |]; try done.
   - by apply rel_step_create.
   - by apply rel_step_createw.
   - destruct k; [|by destruct l]. destruct t; try (by destruct l). destruct r as [i| |]; try (by destruct l).
@@ -1117,6 +1166,7 @@ Proof.
   - destruct k; [|by destruct l]. destruct t; try (by destruct l). destruct r as [i| |]; try (by destruct l).
     apply rel_step_todirect; try done. destruct l as [|b]; [done|]. cbn [l0_op] in Hl0. by apply Nat.ltb_lt.
   - destruct k; [|done]. destruct t; try done. destruct r as [i| |]; try done. by apply rel_step_write.
+  - by apply rel_step_len.
 Qed.
 
 Lemma rel_run cfg d qs ops : wrapping cfg = false -> wf_decl d -> NoDup (da_id <$> wd_archs d) ->
